@@ -27,10 +27,13 @@ Poor == 2
 F1 == MinOf(Fresh)
 F2 == MaxOf(Fresh)
 OneAmt == MinOf(Amounts \ {0})
+ShortM == MinOf(Months \ {0})
+One(ch, k) == [x \in SaleChains |-> IF x = ch THEN k ELSE 0]
+SaleRec(cfg) == [Rec("SetSale", 0, 0, 0, 0, 0, 0, 0, 0, "", 0) EXCEPT !.sc = AsTuple(cfg)]
 
 GLic == \/ \E who \in Users, c \in Addrs, amt \in Amounts, d \in Denoms :
-              (d = Bond \/ c \in Fresh) /\ AddLicense(who, who, c, amt, IF amt = OneAmt THEN MinOf(Months) ELSE MaxOf(Months), d)
-        \/ AddLicense(Poor, Rich, F2, OneAmt, MinOf(Months), Bond)
+              (d = Bond \/ c \in Fresh) /\ \E m \in (IF amt = OneAmt /\ c \in Fresh THEN Months ELSE {MaxOf(Months)}) : AddLicense(who, who, c, amt, m, d)
+        \/ AddLicense(Poor, Rich, F2, OneAmt, ShortM, Bond)
 GSign == \/ \E who \in Signers : Register(who, who) \/ Auth(who, who)
          \/ \E c \in DOMAIN lic : Register(HasAcct, c) \/ Register(CHOOSE x \in Fresh : x # c, c)
          \/ \E c \in clients : Auth(HasAcct, c)
@@ -38,17 +41,17 @@ GSale == \/ \E c \in Addrs, amt \in Amounts : Sale(1, 1, c, amt)
          \/ \E ch \in SaleChains, k \in Contracts : (ch # 1 \/ k # 1) /\ Sale(ch, k, F1, OneAmt)
 GCfg == \/ \E fs \in {<<>>, <<Rich>>, <<Poor>>, <<Rich, Poor>>, <<Poor, Rich>>, <<HasAcct>>} : fs # funders /\ SetFunders(fs)
         \/ ~feegr /\ SetFeegranter
-        \/ \E p \in {<<1, 1>>, <<1, 2>>, <<2, 1>>, <<1, 0>>} : sale # [x \in SaleChains |-> IF x = p[1] THEN p[2] ELSE 0] /\ SetSale(p[1], p[2])
+        \/ \E cfg \in {One(1, 1), One(1, 2), One(2, 1), One(1, 0), [x \in SaleChains |-> 1]} : sale # cfg /\ SetSale(cfg)
 GGift == \E who \in {Rich, HasAcct}, via \in {"tx", "keeper"} : Gift(who, OneAmt, via)
 GAdv == \E c \in DOMAIN vest, q \in {1, 2, 4, 5} : Advance(c, q)
 
 GAct == GLic \/ GSign \/ GSale \/ GCfg \/ GGift \/ GAdv
 
-Step(r) == [act |-> r.act, args |-> [who |-> r.who, as |-> r.as, c |-> r.c, amt |-> r.amt, m |-> r.m, ch |-> r.ch, k |-> r.k, q |-> r.q, via |-> r.via, d |-> r.d]]
+Step(r) == [act |-> r.act, args |-> [who |-> r.who, as |-> r.as, c |-> r.c, amt |-> r.amt, m |-> r.m, ch |-> r.ch, k |-> r.k, q |-> r.q, via |-> r.via, d |-> r.d, sc |-> r.sc]]
 GInit == Init /\ hist = <<>>
 \* genesis + the three proposals
 CfgPrefix == << Step(Rec("SetFunders", Rich, Poor, 0, 0, 0, 0, 0, 0, "", 0)), Step(Rec("SetFeegranter", 0, 0, 0, 0, 0, 0, 0, 0, "", 0)),
-                Step(Rec("SetSale", 0, 0, 0, 0, 0, 1, 1, 0, "", 0)) >>
+                Step(SaleRec(One(1, 1))) >>
 UserBal == [a \in Users \cup Fresh |-> IF a \in Users THEN [d \in Denoms |-> Funds[a][d]] ELSE ZeroD]
 GInitCfg == /\ escrow = ZeroD /\ lic = [c \in {} |-> 0]
             /\ acct = [c \in Fresh |-> "none"] /\ vest = [c \in {} |-> 0]
@@ -56,7 +59,7 @@ GInitCfg == /\ escrow = ZeroD /\ lic = [c \in {} |-> 0]
             /\ clients = {} /\ grants = {}
             /\ funders = <<Rich, Poor>> /\ feegr = TRUE /\ sale = [ch \in SaleChains |-> IF ch = 1 THEN 1 ELSE 0]
             /\ gifts = ZeroD /\ now = 0
-            /\ res = "ok" /\ last = Rec("SetSale", 0, 0, 0, 0, 0, 1, 1, 0, "", 0) /\ nops = 0
+            /\ res = "ok" /\ last = SaleRec(One(1, 1)) /\ nops = 0
             /\ hist = CfgPrefix
 \* genesis + the proposals + a sold and activated licence of the first client (vesting has started)
 VestPrefix == CfgPrefix \o << Step(Rec("Sale", 0, 0, F1, MaxOf(Amounts), 0, 1, 1, 0, "", Bond)), Step(Rec("Register", F1, F1, 0, 0, 0, 0, 0, 0, "", 0)) >>
@@ -72,19 +75,33 @@ GInitVest == LET amt == MaxOf(Amounts) * Unit IN
             /\ hist = VestPrefix
 \* genesis + two pending licences in DIFFERENT denominations (bond denom paid by the rich user, the other denom by the
 \* user who holds it): whichever activates must be paid in its own coin, the other one's escrow stays whole
-TwoPrefix == << Step(Rec("AddLicense", Rich, Rich, F1, OneAmt, MinOf(Months), 0, 0, 0, "", Bond)),
-                Step(Rec("AddLicense", Poor, Poor, F2, OneAmt, MinOf(Months), 0, 0, 0, "", OtherDenom)) >>
+TwoPrefix == << Step(Rec("AddLicense", Rich, Rich, F1, OneAmt, ShortM, 0, 0, 0, "", Bond)),
+                Step(Rec("AddLicense", Poor, Poor, F2, OneAmt, ShortM, 0, 0, 0, "", OtherDenom)) >>
 GInitTwo == LET amt == OneAmt * Unit IN
             /\ escrow = [d \in Denoms |-> IF d \in {Bond, OtherDenom} THEN amt ELSE 0]
-            /\ lic = [c \in Fresh |-> [amt |-> amt, months |-> MinOf(Months), den |-> IF c = F1 THEN Bond ELSE OtherDenom]]
+            /\ lic = [c \in Fresh |-> [amt |-> amt, months |-> ShortM, den |-> IF c = F1 THEN Bond ELSE OtherDenom]]
             /\ acct = [c \in Fresh |-> "base"] /\ vest = [c \in {} |-> 0]
             /\ bal = [UserBal EXCEPT ![Rich][Bond] = @ - amt, ![Poor][OtherDenom] = @ - amt]
             /\ clients = {} /\ grants = {}
             /\ funders = <<>> /\ feegr = FALSE /\ sale = [ch \in SaleChains |-> 0]
             /\ gifts = ZeroD /\ now = 0
-            /\ res = "ok" /\ last = Rec("AddLicense", Poor, Poor, F2, OneAmt, MinOf(Months), 0, 0, 0, "", OtherDenom) /\ nops = 0
+            /\ res = "ok" /\ last = Rec("AddLicense", Poor, Poor, F2, OneAmt, ShortM, 0, 0, 0, "", OtherDenom) /\ nops = 0
             /\ hist = TwoPrefix
-GInit2 == GInit \/ GInitCfg \/ GInitVest \/ GInitTwo
+\* genesis + two pending licences in the SAME (bond) denomination, the first with ZERO vesting months (valid input: the
+\* window has length 0): activating it - and trying again, and again - must take its own coins only, once
+SamePrefix == << Step(Rec("AddLicense", Rich, Rich, F1, OneAmt, 0, 0, 0, 0, "", Bond)),
+                 Step(Rec("AddLicense", HasAcct, HasAcct, F2, OneAmt, ShortM, 0, 0, 0, "", Bond)) >>
+GInitSame == LET amt == OneAmt * Unit IN
+            /\ escrow = [d \in Denoms |-> IF d = Bond THEN 2 * amt ELSE 0]
+            /\ lic = [c \in Fresh |-> [amt |-> amt, months |-> IF c = F1 THEN 0 ELSE ShortM, den |-> Bond]]
+            /\ acct = [c \in Fresh |-> "base"] /\ vest = [c \in {} |-> 0]
+            /\ bal = [UserBal EXCEPT ![Rich][Bond] = @ - amt, ![HasAcct][Bond] = @ - amt]
+            /\ clients = {} /\ grants = {}
+            /\ funders = <<>> /\ feegr = FALSE /\ sale = [ch \in SaleChains |-> 0]
+            /\ gifts = ZeroD /\ now = 0
+            /\ res = "ok" /\ last = Rec("AddLicense", HasAcct, HasAcct, F2, OneAmt, ShortM, 0, 0, 0, "", Bond) /\ nops = 0
+            /\ hist = SamePrefix
+GInit2 == GInit \/ GInitCfg \/ GInitVest \/ GInitTwo \/ GInitSame
 
 GView == <<last, res, svars>>
 GConstr == nops <= MaxOps
@@ -97,7 +114,19 @@ GNextCS == (IF EmitCond THEN PrintT(<<"HIST", ToJson(hist)>>) ELSE TRUE)
 \* cover from the vesting start: time, the other client's direct licence and activation, authentication
 GNextCV == (IF EmitCond THEN PrintT(<<"HIST", ToJson(hist)>>) ELSE TRUE)
           /\ (GAdv \/ GSign \/ (\E who \in {Rich, HasAcct}, m \in Months : AddLicense(who, who, F2, OneAmt, m, Bond))
-                            \/ (\E payer \in {Rich, Poor} : AddLicense(payer, payer, F2, OneAmt, MinOf(Months), OtherDenom)))
+                            \/ (\E payer \in {Rich, Poor} : AddLicense(payer, payer, F2, OneAmt, ShortM, OtherDenom)))
+\* cover of the sale-contract configuration, from the configured start: two successive proposals (any list of the
+\* family: every subset of the chains with contract 1, and lists with a changed address), then a sale reported from
+\* every (chain, contract): current, retired and never configured ones.  The path is part of the view: the SAME final
+\* list reached from different earlier lists are different histories.
+CfgFamily == {cfg \in SaleCfgs : \A ch \in SaleChains : cfg[ch] \in {0, 1}}
+             \cup {cfg \in SaleCfgs : cfg[1] = MaxOf(Contracts) /\ \A ch \in SaleChains \ {1} : cfg[ch] = 1}
+             \cup {cfg \in SaleCfgs : cfg[1] = 1 /\ \A ch \in SaleChains \ {1} : cfg[ch] = (IF ch = 2 THEN MaxOf(Contracts) ELSE 0)}
+GViewH == <<last, res, svars, hist>>
+GNextCC == (IF EmitCond THEN PrintT(<<"HIST", ToJson(hist)>>) ELSE TRUE)
+          /\ (IF nops < 2 THEN \E cfg \in CfgFamily : cfg # sale /\ SetSale(cfg)
+              ELSE nops = 2 /\ \E ch \in SaleChains, k \in Contracts : Sale(ch, k, F1, OneAmt))
+          /\ hist' = Append(hist, Step(last'))
           /\ hist' = Append(hist, Step(last'))
 GNextS == (IF nops = EmitAt THEN PrintT(<<"HIST", ToJson(hist)>>) ELSE TRUE)
           /\ GAct /\ hist' = Append(hist, Step(last'))
